@@ -50,7 +50,8 @@ def op_term(op):
         "k": lambda: f"OKill {op[1]}", "r": lambda: f"OResize {op[1]}", "t": lambda: f"OAdvance {op[1]}",
         "hold": lambda: "OHold", "rel": lambda: f"ORelease {op[1]}", "drain": lambda: "ODrain",
         "stop": lambda: "OStop", "q": lambda: "OQuery", "sd": lambda: f"OSetDisc {disc_term(op[1])}",
-        "sw": lambda: f"OSetCount {op[1]}",
+        "sw": lambda: f"OSetCount {op[1]}", "xs": lambda: f"OXStop {op[1]}", "xr": lambda: f"OXRelease {op[1]}",
+        "sh": lambda: "OSetHandler",
     }[k]()
 
 
@@ -344,6 +345,102 @@ def f3_signature(s, r, wid, key=None):
             if isinstance(e, tuple) and e[0] == "EDrop" and e[1] not in started and job_key(s, e[1]) == k:
                 return {"worker": wid, "key": k, "stale_job": j, "release_op": rel, "replacement_job": e[1]}
     return None
+
+
+def gen_window_scenario(rng):
+    """the exiting-worker window: a worker is stopped from outside and parks in its post_stop (status Stopping,
+    ports closed, supervisor not yet told); jobs are routed to it meanwhile (they wait in its queue), the pool is
+    resized, the post_stop returns, the replacement takes over. No `hold` here (see docs/notes/C13.md)."""
+    # not sticky: once F11 has put one key on two workers, `find(is_processing_key)` depends on HashMap order
+    router = rng.choice(["kp", "kp", "rr", "cu", "q"])
+    n = rng.choice([1, 1, 2, 3])
+    keys = rng.sample(range(0, 30), rng.choice([1, 2, 3]))
+    h = {k: rng.choice([0, 1, 2, 3, 5, 2**32 + 3]) for k in keys} if router == "cu" else {}
+    disc = "none" if rng.random() < 0.7 else rng.choice(["new", "old"]) + ":" + str(rng.choice([1, 2, 3]))
+    ops, jid = [], 0
+    def d(k=None, ttl="-"):
+        nonlocal jid
+        jid += 1
+        ops.append(["d", jid, k if k is not None else rng.choice(keys), ttl, rng.choice([0, 1])])
+    for _ in range(rng.choice([0, 1, 2])):
+        d(keys[0])
+        if rng.random() < 0.6:
+            ops.append(["g", rng.randrange(0, n)])
+    wv = rng.randrange(0, n)
+    if rng.random() < 0.3:
+        ops.append(["g", wv])
+    ops.append(["xs", wv])
+    if rng.random() < 0.3:
+        ops.append(["g", wv])
+    for _ in range(rng.choice([1, 2, 2, 3, 4])):
+        d(keys[0] if rng.random() < 0.7 else None)
+    r = rng.random()
+    if r < 0.45:
+        ops.append([rng.choice(["r", "sw"]), rng.choice([1, 1, 2, 3])])
+    elif r < 0.55:
+        ops.append(["q"])
+    if rng.random() < 0.3:
+        d()
+    if rng.random() < 0.15:
+        ops.append(["k", wv])
+    ops.append(["xr", wv])
+    for _ in range(rng.choice([2, 4, 6])):
+        x = rng.random()
+        if x < 0.5:
+            ops.append(["g", rng.randrange(0, 3)])
+        elif x < 0.7:
+            d()
+        elif x < 0.8:
+            ops.append(["r", rng.choice([1, 2, 3])])
+        else:
+            ops.append(["q"])
+    for _ in range(3):
+        for w in range(3):
+            ops.append(["g", w])
+    if rng.random() < 0.3:
+        ops.append([rng.choice(["stop", "drain"])])
+        for w in range(3):
+            ops.append(["g", w])
+    ops.append(["q"])
+    return {"router": router, "queue": rng.choice(["d", "d", "p"]), "n": n, "disc": disc, "hash": h, "rl": "", "ops": ops[:80]}
+
+
+def gen_settings_scenario(rng):
+    """UpdateSettings at runtime (new discard handler, discard settings variant / mode, worker count) on
+    worker-queueing routers, followed by discards out of WORKER queues: load shedding, ttl expiry, shutdown."""
+    router = rng.choice(["kp", "rr", "cu", "sq", "kp", "rr"])
+    n = rng.choice([1, 1, 2])
+    keys = rng.sample(range(0, 30), rng.choice([1, 2]))
+    h = {k: rng.choice([0, 1, 2, 3]) for k in keys} if router == "cu" else {}
+    disc = rng.choice(["none", "new:1", "new:2", "old:1", "old:2", "new:3"])
+    ops, jid, clock = [], 0, 0
+    def d(ttl="-"):
+        nonlocal jid
+        jid += 1
+        ops.append(["d", jid, rng.choice(keys), ttl, rng.choice([0, 1])])
+    for _ in range(rng.choice([1, 2, 3])):
+        d()
+    for _ in range(rng.choice([1, 2])):
+        ops.append([rng.choice(["sh", "sh", "sd"])] if rng.random() < 0.7 else ["sw", rng.choice([1, 2, 3])])
+        if ops[-1][0] == "sd":
+            ops[-1].append(rng.choice(["none", "new:0", "new:1", "new:2", "old:0", "old:1", "old:2"]))
+        for _ in range(rng.choice([2, 3, 5])):
+            d(rng.choice(["-", "-", 0, 1]))
+        if rng.random() < 0.5 and clock < 8:
+            clock += 2
+            ops.append(["t", 2])
+        if rng.random() < 0.6:
+            ops.append(["g", rng.randrange(0, n)])
+    x = rng.random()
+    if x < 0.5:
+        ops.append(["stop"])
+    elif x < 0.7:
+        ops.append(["drain"])
+    for _ in range(3):
+        for w in range(3):
+            ops.append(["g", w])
+    ops.append(["q"])
+    return {"router": router, "queue": rng.choice(["d", "p"]), "n": n, "disc": disc, "hash": h, "rl": "", "ops": ops[:80]}
 
 
 def scn_stats(chk, s, r):
